@@ -5,7 +5,7 @@ from analysis import cfg
 from analysis.sym import sym, show_in, nosite, peel, core, walk, ret_values, args_of, guards_at, atoms_at, \
     variant_facts_at, cmp_facts_at, init_value, edge_guards, const_str, agg_field
 from analysis.pat import match, Call, Cap, ANY, Pred, Const, has, chain_names
-from rules.common import closure_of, closures_in
+from rules.common import closure_of, closures_in, resolve_upvars
 
 WS = 'unicode::Character::is_whitespace'
 CW = 'data::preprocessing::corrupt_whitespace'
@@ -39,7 +39,9 @@ def r1(ctx):
     ctx.require(ok, inner, 'one-draw-per-char', 'one rng.random() per character, before any branch',
                 'draws per character: %d (or not on every path): the random stream shifts with the text' % len(draws), draws[0].span if draws else None)
     if draws:
-        ctx.require(match(core(sym(inner, draws[0].args[0])), ('upvar', ANY, 'rng')) or match(core(sym(inner, draws[0].args[0])), ('upvar', ANY, ANY)), inner,
+        up = core(sym(inner, draws[0].args[0]))
+        ctx.require(up[0] == 'upvar' and rngs and resolve_upvars(ctx, inner, up)[0] == 'var' and
+                    nosite(resolve_upvars(ctx, inner, up)) == nosite(core(sym(outer, rngs[0].dest))), inner,
                     'draw-from-seeded-rng', 'the draw uses the captured seeded rng', None)
         ctx.require('f64' in inner.local_ty(draws[0].dest.local), inner, 'draw-type', 'the draw is a uniform f64 in [0,1)', None)
 
@@ -53,6 +55,10 @@ def r2(ctx):
     ch = ('field', ('arg', 2, ANY), 1)
     idx = ('field', ('arg', 2, ANY), 0)
     draw = Call('Rng::random', ANY)
+    # captured probabilities resolved to the parameters of corrupt_whitespace(iw_p, dw_p, ..): clamp(arg, 0, 1)
+    def prob(argno):
+        return Pred(lambda u: u[0] == 'upvar' and match(resolve_upvars(ctx, inner, u), Call('f64::clamp', ('arg', argno, ANY), ANY, ANY)))
+    DW, IW = prob(2), prob(1)
     seen = {'empty': 0, 'self': 0, 'space': 0}
     for v, blk in ret_values(inner):
         c = core(v)
@@ -62,7 +68,7 @@ def r2(ctx):
         span = inner.blocks[blk].term.span
         if c[0] == 'const' and const_str(c) == '':
             seen['empty'] += 1
-            lt = any(pol is True and match(t, ('bin', 'Lt', draw, ('upvar', ANY, 'dw_p'))) for t, pol in atoms)
+            lt = any(pol is True and match(t, ('bin', 'Lt', draw, DW)) for t, pol in atoms)
             ctx.require(ws_t and lt, inner, 'delete-guard', 'a character is removed only if it is whitespace and r < dw_p (strict)',
                         'a character can be removed under %s' % [('' if pol else '!') + show_in(inner, t)[:50] for t, pol in atoms], span)
         elif match(c, ('field', ch, 'str')):
@@ -70,7 +76,7 @@ def r2(ctx):
         elif match(c, ('bin', 'Add', Pred(lambda t: const_str(t) == ' '), ('field', ch, 'str'))) or \
                 (c[0] == 'call' and c[1].endswith('String as std::ops::Add>::add') and const_str(core(c[2][0])) == ' ' and match(core(c[2][1]), ('field', ch, 'str'))):
             seen['space'] += 1
-            lt = any(pol is True and match(t, ('bin', 'Lt', draw, ('upvar', ANY, 'iw_p'))) for t, pol in atoms)
+            lt = any(pol is True and match(t, ('bin', 'Lt', draw, IW)) for t, pol in atoms)
             pos = any(pol is True and (match(t, ('bin', 'Gt', idx, Const(0))) or match(t, ('bin', 'Ne', idx, Const(0)))) for t, pol in atoms) or \
                 any(pol is False and match(t, ('bin', 'Eq', idx, Const(0))) for t, pol in atoms)
             prev = any(pol is False and match(t, Call(WS, Call('CharString::get_char', ANY, ('bin', 'Sub', idx, Const(1))))) for t, pol in atoms)
